@@ -1019,6 +1019,7 @@ func VH_C15_drawpath_dashes_two_Q() {
 // only the requested paints, the style of the context is as before, and the current path starts
 // anew.
 func VH_C15_fill_stroke_helpers_Q() {
+	vStub("math.Hypot", vhHypotQ)
 	rec := &vhC15Rec{w: 100, h: 100}
 	c := NewContext(rec)
 	x, y := vhReal(), vhReal()
